@@ -57,7 +57,7 @@ func levelOfVec(ver int, v spec.Vec) spec.Level {
 func TestC11(t *testing.T) {
 	c := begin(t, "C11")
 	defer c.end()
-	c.rec.F.Rule = "single-defect enumeration: for 6 representative vectors per CVSS version, at every decoder level covering the vector, every defect kind x every token x every position (bad value from every foreign code and junk; repeated name with every legal value at every later position; extra unknown / higher-level token at every position; malformed token at every position; malformed prefixes; other versions; every missing base metric and pair; v2 every partial group subset and every transposition) with the reported sentinel required to be exactly the constructed kind; rapid: the generator mix of C07/C08 for both versions (mutated, single-defect, arbitrary strings) with the sentinel required to be unique under errors.Is and a member of the classifier's defect set. Non-trivial = a rejected input; distinct by hash of (version, decoder, receiver, input)."
+	c.rec.F.Rule = "single-defect enumeration: for 6 representative vectors per CVSS version, at every decoder level covering the vector, every defect kind x every token x every position (bad value from every foreign code and junk; repeated name with every legal value at every later position; extra unknown / higher-level token at every position; malformed token at every position; malformed prefixes; other versions; every missing base metric and pair; v2 every partial group subset and every transposition) with the reported sentinel required to be exactly the constructed kind; shapes: the flood / long-token / look-alike / dense-text inputs of C07 (a flood of well-formed unknown tokens exhibits exactly one defect kind, whatever its length); rapid: the generator mix of C07/C08 for both versions (mutated, single-defect, arbitrary strings) with the sentinel required to be unique under errors.Is and a member of the classifier's defect set. Non-trivial = a rejected input; distinct by hash of (version, decoder, receiver, input)."
 	c.rec.F.Assumptions = []string{"defect classifier (harness/spec) returns the set of all defect kinds present; for multi-defect inputs any member is accepted, for constructed single-defect inputs the kind is fixed by construction", "an empty version label (CVSS:) counts as malformed prefix or unsupported version"}
 	nviol := 0
 	i := 0
@@ -85,6 +85,15 @@ func TestC11(t *testing.T) {
 				})
 			}
 		}
+	}
+	for _, ver := range []int{3, 2} {
+		forEachShape(ver, func(j int, cs strCase, label string) {
+			if nviol > 0 || !mine(j) {
+				return
+			}
+			c.rec.Case("shapes", cs.key(), !refAccept(cs), shapeClass(label))
+			evalEnum(c, "string", cs, checkC11, &nviol)
+		})
 	}
 	c.rapidStage("rapid", pick(100000, 3000000), func(rt *rapid.T) {
 		ver := rapid.SampledFrom([]int{2, 3}).Draw(rt, "version")
